@@ -43,12 +43,9 @@ def read_client_conf():
 
     def resolve_location(item: str, value: str) -> str:
         nonlocal path
-        sp = value.split(':')
-        if len(sp) == 1:
-            scheme = value
-            loc = ''
-        else:
-            scheme, loc = sp
+        # Only the first colon separates scheme and location; the location itself may contain
+        # colons (e.g. any absolute path on Windows), as default_keychain() already assumes.
+        scheme, _, loc = value.partition(':')
         if not loc or not os.path.exists(loc):
             if loc and (path is not None):
                 loc = os.path.join(os.path.dirname(path), loc)
